@@ -17,7 +17,17 @@ RULE = ("valid (reference, estimate) pairs per task on the exact 1/32 s lattice 
         "metric functions with the real ones; non-trivial = both sides non-empty")
 ASSUMPTIONS = ["theorems are about the Lean model; they transfer to the code where the correspondence suites agree",
                "binary64 on the exact lattice performs the modelled rational comparisons exactly"]
-UNPROVED = []
+UNPROVED = [
+    "C01.Entropy (information gain): the nan region is characterised exactly in terms of the model "
+    "(information_gain_finite_partial: a number in [0,1] iff some backward beat error is finite) and on inputs by "
+    "harness/regions.py; the input-level sufficient condition 'strictly increasing estimated beats => finite' is "
+    "not proved",
+    "C01.Entropy: all entropy-range theorems (information gain, MI, NMI, NCE/V, AMI) are about the real-number reading "
+    "of the model's definitions; binary64 rounding (e.g. MI noise over the 1e-10 NMI floor, AMI with a denominator at "
+    "rounding level) is covered by correspondence and the oracle only",
+    "C01.Entropy.emi_hypergeometric: the expected-MI loop equals the hypergeometric expectation over the loop's own "
+    "range of n_ij; that this range is the whole support (weights sum to 1) is not stated as a theorem",
+]
 SUITES, _classifiers = SU.load_all()
 CHECKERS, ORACLES = _relational.make(R.check_range, self_inputs=False)
 _xc, _xo = _relational.extra(PID)
